@@ -217,3 +217,26 @@ VARIANTS += [
       "    b = params[1]\n    z = np.tanh(z / b if abs(b) > 0.0 else 1.0)",
       "silent"),
 ]
+
+VARIANTS += [
+    Variant("silent-quotient-guard-hoisted-zero", PD, [
+        ("@numba.njit(cache=True, inline=\"always\", fastmath=True, "
+         "boundscheck=False)\ndef __table_3_1_lgpc(",
+         "_ZERO = 0.0\n\n\n@numba.njit(cache=True, inline=\"always\", "
+         "fastmath=True, boundscheck=False)\ndef __table_3_1_lgpc("),
+        ("(params[3] / a) if (a != 0.0) else 1.0",
+         "(params[3] / a) if (a != _ZERO) else 1.0")], "silent"),
+]
+
+VARIANTS += [
+    V("ann-cache-key-without-separator", P + "ann.py",
+      "    description = \"_\".join(map(str, ([state_dims, control_dims, "
+      "*layers])))",
+      "    description = \"\".join(map(str, (state_dims, control_dims, "
+      "*layers)))", "fire", "D16.9"),
+    V("silent-ann-cache-key-other-separator", P + "ann.py",
+      "    description = \"_\".join(map(str, ([state_dims, control_dims, "
+      "*layers])))",
+      "    description = \"x\".join(map(str, (state_dims, control_dims, "
+      "*layers)))", "silent"),
+]
